@@ -35,7 +35,8 @@ type c12 struct {
 	gdev *fixture.GNMIDevice
 	gtg  target.Target
 	// wires: production gNMI targets (proto, json, json_ietf) with a gNMI device each; every tree is handed to them too
-	wires []fixture.Forwarder
+	wires   []fixture.Forwarder
+	wireErr string
 }
 
 func init() { core.Register(&c12{}) }
@@ -117,16 +118,20 @@ func (c *c12) Setup(w *core.Worker) error {
 	for _, enc := range []string{"proto", "json", "json_ietf"} {
 		f, err := gnmiForwarder(enc)
 		if err != nil {
-			return fmt.Errorf("gNMI wire fixture (%s): %v", enc, err)
+			// no loopback gRPC here: the wire observations are skipped (and counted)
+			c.wires = nil
+			c.wireErr = fmt.Sprintf("gNMI wire fixture (%s): %v", enc, err)
+			break
 		}
 		c.wires = append(c.wires, f)
 	}
 	if c.gdev, err = fixture.NewGNMIDevice(); err != nil {
-		return fmt.Errorf("gNMI device: %v", err)
+		c.gdev, c.wireErr = nil, fmt.Sprintf("gNMI device: %v", err)
+		return nil
 	}
 	sbi := &config.SBI{Type: "gnmi", Address: "127.0.0.1", Port: c.gdev.Port(), GnmiOptions: &config.SBIGnmiOptions{Encoding: "proto"}}
 	if c.gtg, err = target.New(context.Background(), "c12g", sbi, nil); err != nil {
-		return fmt.Errorf("gNMI target: %v", err)
+		c.gdev, c.wireErr = nil, fmt.Sprintf("gNMI target: %v", err)
 	}
 	return nil
 }
@@ -168,6 +173,10 @@ func toGnmiTv(tv *sdcpb.TypedValue) *gnmi.TypedValue {
 // value the target hands on, the stored value and GetData must denote the datum the device reported.
 func (c *c12) gnmiCase(cs c12Case, t model.TypeDef, want, desc string, res *core.CaseResult) {
 	ctx := context.Background()
+	if c.gdev == nil {
+		res.Inconclusive("C12/gnmi/fixture-unavailable", "%s: %s", desc, c.wireErr)
+		return
+	}
 	form := strings.TrimPrefix(cs.form, "gnmi-")
 	if t.Kind == "empty" && (form == "typed" || form == "string") {
 		// gNMI has no scalar for the YANG empty type: a device reports it inside a document
